@@ -2075,14 +2075,20 @@ def aten_conv2d(
     # Attributes need to be manipulated in Python to match ONNX's conv2d
     if not isinstance(padding, Sequence):
         padding = (padding, padding)
+    elif len(padding) == 1:
+        padding = tuple(padding) * 2
     pads = [*padding, *padding]
 
     if not isinstance(dilation, Sequence):
         dilation = (dilation, dilation)
+    elif len(dilation) == 1:
+        dilation = tuple(dilation) * 2
     dilations = list(dilation)
 
     if not isinstance(stride, Sequence):
         stride = (stride, stride)
+    elif len(stride) == 1:
+        stride = tuple(stride) * 2
     strides = list(stride)
 
     if bias is None:
@@ -2120,14 +2126,20 @@ def aten_conv2d_complex(
     # Attributes need to be manipulated in Python to match ONNX's conv2d
     if not isinstance(padding, Sequence):
         padding = (padding, padding)
+    elif len(padding) == 1:
+        padding = tuple(padding) * 2
     pads = [*padding, *padding]
 
     if not isinstance(dilation, Sequence):
         dilation = (dilation, dilation)
+    elif len(dilation) == 1:
+        dilation = tuple(dilation) * 2
     dilations = list(dilation)
 
     if not isinstance(stride, Sequence):
         stride = (stride, stride)
+    elif len(stride) == 1:
+        stride = tuple(stride) * 2
     strides = list(stride)
 
     if bias is None:
@@ -2165,14 +2177,20 @@ def aten_conv3d(
     # Attributes need to be manipulated in Python to match ONNX's conv3d
     if not isinstance(padding, Sequence):
         padding = (padding, padding, padding)
+    elif len(padding) == 1:
+        padding = tuple(padding) * 3
     pads = [*padding, *padding]
 
     if not isinstance(dilation, Sequence):
         dilation = (dilation, dilation, dilation)
+    elif len(dilation) == 1:
+        dilation = tuple(dilation) * 3
     dilations = list(dilation)
 
     if not isinstance(stride, Sequence):
         stride = (stride, stride, stride)
+    elif len(stride) == 1:
+        stride = tuple(stride) * 3
     strides = list(stride)
 
     if bias is None:
@@ -2210,14 +2228,20 @@ def aten_conv3d_complex(
     # Attributes need to be manipulated in Python to match ONNX's conv3d
     if not isinstance(padding, Sequence):
         padding = (padding, padding, padding)
+    elif len(padding) == 1:
+        padding = tuple(padding) * 3
     pads = [*padding, *padding]
 
     if not isinstance(dilation, Sequence):
         dilation = (dilation, dilation, dilation)
+    elif len(dilation) == 1:
+        dilation = tuple(dilation) * 3
     dilations = list(dilation)
 
     if not isinstance(stride, Sequence):
         stride = (stride, stride, stride)
+    elif len(stride) == 1:
+        stride = tuple(stride) * 3
     strides = list(stride)
 
     if bias is None:
